@@ -18,8 +18,8 @@ func init() {
 	core.Register(&core.Check{
 		ID: "C38", Level: "other", Title: "Recent-block duplicate detection is exact",
 		Technique: "lock discipline (per-object lockset over SSA), guard dominance, paired field updates, loop-iteration must-execute",
-		Explain: "Structural necessary conditions, decided on the SSA of validator/increment and validator/stateful: (LS) every access to IncrementValidator.blocks/baseHeight holds IncrementValidator.mutex of the same object (writes and reads; helper blockRange is discharged at its call sites); only AddBlock and Clean write these fields and maxBlocks is written only at construction. (AddBlock) the append to blocks is dominated by baseHeight+uint32(len(blocks)) == block.Header.Height (exact equality: a stale or gapped block is ignored), the base is (re)initialised only under len(blocks)==0, the eviction blocks=blocks[1:] is dominated by len(blocks) >= maxBlocks and is paired in the same basic block with baseHeight += 1 (and vice versa), the append is unreachable with len(blocks) >= maxBlocks without passing the eviction, and the appended set is the map filled by a loop over block.Transactions that executes set[tx.Hash()] = true in every iteration. (Verify) nil is returned only after startHeight >= baseHeight; the scan index starts at int(startHeight-baseHeight), advances by 1 and is bounded by len(blocks); every iteration looks up tx.Hash() in blocks[i]; from the found edge no nil return is reachable. (Stateful) the CheckResponse sent carries ErrDuplicatedTx on the `exist` edge of IsContainTransaction(msg.Tx.Hash()) and ErrUnknown on its error edge. NOT decided: exactness over all block sequences (a history property) — only the guards that make it so.",
-		Run: runC38,
+		Explain:   "Structural necessary conditions, decided on the SSA of validator/increment and validator/stateful: (LS) every access to IncrementValidator.blocks/baseHeight holds IncrementValidator.mutex of the same object (writes and reads; helper blockRange is discharged at its call sites); only AddBlock and Clean write these fields and maxBlocks is written only at construction. (AddBlock) the append to blocks is dominated by baseHeight+uint32(len(blocks)) == block.Header.Height (exact equality: a stale or gapped block is ignored), the base is (re)initialised only under len(blocks)==0, the eviction blocks=blocks[1:] is dominated by len(blocks) >= maxBlocks and is paired in the same basic block with baseHeight += 1 (and vice versa), the append is unreachable with len(blocks) >= maxBlocks without passing the eviction, and the appended set is the map filled by a loop over block.Transactions that executes set[tx.Hash()] = true in every iteration. (Verify) nil is returned only after startHeight >= baseHeight; the scan index starts at int(startHeight-baseHeight), advances by 1 and is bounded by len(blocks); every iteration looks up tx.Hash() in blocks[i]; from the found edge no nil return is reachable. (Stateful) the CheckResponse sent carries ErrDuplicatedTx on the `exist` edge of IsContainTransaction(msg.Tx.Hash()) and ErrUnknown on its error edge. NOT decided: exactness over all block sequences (a history property) — only the guards that make it so.",
+		Run:       runC38,
 	})
 }
 
